@@ -269,7 +269,7 @@ class StringDataEncoding(DataEncoding):
         elif self.discrete_lookup_length:
             for discrete_lookup in self.discrete_lookup_length:
                 buflen_bits = discrete_lookup.evaluate(packet)
-                if buflen_bits:
+                if buflen_bits is not None:
                     break
             else:
                 raise ValueError('List of discrete lookup values being used for determining length of '
